@@ -15,6 +15,7 @@ fn ctx(default_ids: &[&str]) -> &'static Ctx {
     C.get_or_init(|| {
         crate::refmodel::self_check();
         crate::exec::install_panic_hook();
+        crate::exec::install_logger();
         let dir = std::path::PathBuf::from(std::env::var("VERIF_DIR").unwrap_or_else(|_| "/verif".into()));
         let findings = engine::load_findings(&dir);
         engine::set_known(findings.iter().filter(|f| f.status == "known").map(|f| f.signature.clone()).collect());
